@@ -40,6 +40,9 @@
 #ifndef EAV_VERIF_STEP_is_6531_local
 #define EAV_VERIF_STEP_is_6531_local
 #endif
+#ifndef EAV_VERIF_AT_is_6531_local_fws
+#define EAV_VERIF_AT_is_6531_local_fws
+#endif
 #ifndef EAV_VERIF_LOOP_is_ascii_domain
 #define EAV_VERIF_LOOP_is_ascii_domain
 #endif
